@@ -11,6 +11,10 @@ AuxN == {NoAux}
 ChainQ == <<"al", "tg">>
 KeysF  == {"al", "md", "tg", "ng", "sc"}
 ChainF == <<"al", "md", "tg">>
+\* an alias chain that ends in a name that does not exist (composed NXDOMAIN replies)
+ChainN == <<"al", "md", "ng">>
+KeysQN == {"al", "ng"}
+ChainQN == <<"al", "ng">>
 AuxQ == {NoAux, 3}
 AuxF == {NoAux, 1, 3}
 AuxS == {NoAux, 1, 3, 7}
